@@ -14,7 +14,8 @@ LEVEL_TEXT = ('Unbounded Lean theorems: (a) ALL SIZES of the hand-modelled class
               'Toric2DCode L>=2, Planar2DCode and RotatedPlanar2DCode L>=1, Toric3DCode L>=2, Planar3DCode and '
               'RotatedPlanar3DCode L>=1, XCubeCode L>=2, Color666PlanarCode L>=1, Color488Code and Color666ToricCode LxL, '
               'L>=1 (qubit lists derived from the stabilizers; periodic identification proved canonical), RhombicPlanarCode '
-              'Lx,Ly>=2 Lz>=1, RhombicToricCode all L_i even >=2, HollowPlanar3DCode L>=1 (with or without a cavity), '
+              'Lx,Ly>=2 Lz>=1, RhombicToricCode all L_i even >=2, HollowPlanar3DCode L>=1 (with or without a cavity; logical Z = '
+              'the membrane through the cavity, cross-section x = 3, since the repair of get_logicals_z), '
               'RotatedToric3DCode Lx,Ly>=2 not both odd, Lz>=1 (k=2 even x even, k=1 with a defect line; explicit family of '
               'n-k independent generators for both parities) -- all with the full valid_code incl. rank; Color3DCode all L_i '
               'even >= 2 (wf of the derived qubit list, commutation, the 9x9 pairing table of strings and membranes; periodic '
